@@ -5,7 +5,7 @@ from fractions import Fraction
 import vlib, fock
 
 CLAIM = {
- "text": "Proof (Lean 4), partial. Modelled exactly and proved for every size: (1) index placement of the variational solver (a term a+_i a+_j a_k a_l is accumulated at [i, l, j, k]) and the spin summation i -> i div 2, with the theorem that the accumulation loop yields, at [p, q], exactly the sum of the four spin blocks [2p+s, 2q+t]; (2) the 1-RDM padding (2 on the frozen occupied diagonal, active block scattered to the active positions): its trace is the active trace plus twice the number of frozen occupied orbitals, it is symmetric when the active block is; (3) the energy contraction with the index transposition (0,3,1,2): contracting the transposed integrals with an RDM equals contracting the integrals with the inversely transposed RDM, for arbitrary tensors over a commutative ring (finite sums over Fin n). NOT proved in Lean: that measured expectation values are the density-matrix elements (C02/C03 correspondence), the 2-RDM mean-field removal / re-insertion algebra of the padding, and anything inside PySCF (FCI, CCSD lambda, MP2 density matrices). Those are decided by the numerical oracle: for random parameter vectors, encodings and orderings the variational RDMs are compared element-wise with <a+ a> and <a+ a+ a a> of the independently simulated state, contracted to the solver's energy, checked for Hermiticity and traces; FCI / CCSD / MP2 RDMs are contracted, traced and checked for Hermiticity; padded RDMs are contracted with the full-space integrals of the same molecule without frozen orbitals, traced to the total electron count, and the arguments compared with copies taken before the call.",
+ "text": "Proof (Lean 4), partial. Modelled exactly and proved for every size: (1) index placement of the variational solver (a term a+_i a+_j a_k a_l is accumulated at [i, l, j, k]) and the spin summation i -> i div 2, with the theorem that the accumulation loop yields, at [p, q], exactly the sum of the four spin blocks [2p+s, 2q+t]; (2) the 1-RDM padding (2 on the frozen occupied diagonal, active block scattered to the active positions): its trace is the active trace plus twice the number of frozen occupied orbitals, it is symmetric when the active block is; (3) the energy contraction with the index transposition (0,3,1,2): contracting the transposed integrals with an RDM equals contracting the integrals with the inversely transposed RDM, for arbitrary tensors over a commutative ring (finite sums over Fin n); (4) Hermiticity is carried through the pipeline: if the value stored for the Hermitian conjugate of a term is the conjugate of the term's value, the placed 2-RDM is Hermitian in chemist notation (place2_hermitian), the spin-summed tensor is Hermitian (spinSum_hermitian) and so is the padded 1-RDM (pad1_hermitian); storing ONE value at both positions is Hermitian only for self-conjugate values (same_value_both_positions_not_hermitian). NOT proved in Lean: that measured expectation values are the density-matrix elements (C02/C03 correspondence), the 2-RDM mean-field removal / re-insertion algebra of the padding, and anything inside PySCF (FCI, CCSD lambda, MP2 density matrices). Those are decided by the numerical oracle: for random parameter vectors, encodings and orderings the variational RDMs are compared element-wise with <a+ a> and <a+ a+ a a> of the independently simulated state, contracted to the solver's energy, checked for Hermiticity and traces; FCI / CCSD / MP2 RDMs are contracted, traced and checked for Hermiticity; padded RDMs are contracted with the full-space integrals of the same molecule without frozen orbitals, traced to the total electron count, and the arguments compared with copies taken before the call.",
  "note": "Trusted: Lean kernel + standard axioms; numpy; PySCF integrals and classical solvers; cirq simulator (through the solver's backend).",
  "technique": "Lean 4 theorems on index placement, spin summation, 1-RDM padding and the contraction transposition + element-wise and energy/trace/Hermiticity oracle for all solvers + argument-immutability oracle for the padding helpers"}
 
